@@ -180,7 +180,11 @@ def custom_cases(ctx, rng, d):
         chk = jsonschema.FormatChecker(formats=())
         chk.checks("custom", raises=listed_spec)(fn)
         F = {"format": "custom"}
-        under = [({"additionalProperties": F}, {"k": "x"}), ({"patternProperties": {"^k": F}}, {"k": "x"}),
+        under = [({"$ref": "#/definitions/f", "definitions": {"f": F}}, "x"),
+                 ({"properties": {"a": {"$ref": "#/definitions/f"}}, "definitions": {"f": F}}, {"a": "x"}),
+                 ({"items": {"$ref": "#/definitions/g"}, "definitions": {"g": {"$ref": "#/definitions/f"}, "f": F}}, ["x"]),
+                 ({impl.IDKW[d]: "http://vf.example/c12/root.json", "items": {"$ref": "root.json#/definitions/f"}, "definitions": {"f": F}}, ["x"]),
+                 ({"additionalProperties": F}, {"k": "x"}), ({"patternProperties": {"^k": F}}, {"k": "x"}),
                  ({"dependencies": {"k": F}}, {"k": "x"}), ({"items": [{}, F], "additionalItems": F}, [1, "x", "y"])]
         if d >= 4:
             under += [({"not": F}, "x"), ({"anyOf": [F, {}]}, "x"), ({"oneOf": [{"type": "integer"}, F]}, "x"),
